@@ -654,10 +654,11 @@ def _execute_boot(ctx, plan):
         # a change of a persistent variable's value is handed to the data manager at once
         if op["op"] == "set" and op["persist"]:
             before = shadow_before.get(name)
-            if before is None or not _eq(before["value"], op["value"]):
+            # "change" in MPF's (and Python's) sense: 0.0 == False == 0 is no change and needs no write
+            if before is None or not _py_equal(before["value"], op["value"]):
                 if op["value"] is not None or before is not None:
                     last = snapshots[-1].get(name) if len(snapshots) > 1 else None
-                    if last is None or not _eq(last.get("value"), op["value"]):
+                    if last is None or not _py_equal(last.get("value"), op["value"]):
                         ctx.violation("persist_subset_wrong", "machine_vars", "after %r the data handed to the data "
                                       "manager is %r" % (op, snapshots[-1]))
         ctx.state("boot", plan["fate"], len(persisted()), last_seen[0])
@@ -727,6 +728,13 @@ def _execute_boot(ctx, plan):
                 ctx.violation("persisted_var_not_reloaded", "reload", "%s=%r was on disk (expire %r, boot at %.3f) but "
                               "after reboot is_machine_var=%r value=%r" % (name, st["value"], exp, boot_ts, present, got))
     env["sched"].kill_all()
+
+
+def _py_equal(a, b):
+    try:
+        return bool(a == b)
+    except Exception:      # pylint: disable=broad-except
+        return False
 
 
 def _changed_persisted(op, before, after):
